@@ -2,7 +2,7 @@
    (sequential histories as theorems; the concurrent clause is refuted of the lock-level model and recorded). *)
 From RxModel Require Import Subject Ileave.
 From RxSpec Require Import SubjectSpec BehaviorSpec IleaveSpec.
-From RxProofs Require SubjectLaws BehaviorLaws.
+From RxProofs Require SubjectLaws BehaviorLaws IleaveInv IleaveLatest.
 
 (* Every history of next / next_by / clone / subscribe / unsubscribe / peek / complete /
    error / ...: the implementation model (subject + value cell) yields exactly the
@@ -42,6 +42,49 @@ Proof.
   - exists ([0; 1; 1; 1; 1; 1; 1] ++ flat_map (fun _ => [0; 1]) (seq 0 20))%nat. vm_compute. split; reflexivity.
   - exists ([1; 1; 0; 0; 0; 0; 0; 0; 0] ++ flat_map (fun _ => [0; 1]) (seq 0 20))%nat. vm_compute. split; reflexivity.
 Qed.
+
+(* Where the crate DOES satisfy the concurrent clauses, for every schedule: with at most one thread calling
+   BehaviorSubject::next (any number of other threads subscribing, unsubscribing, peeking), the stored value is the one
+   delivered last in the common order ... *)
+Theorem C12_latest_with_one_producer :
+  forall v0 setup scripts sched,
+    IleaveInv.names_ok setup scripts = true -> IleaveInv.setup_completes v0 setup = true ->
+    IleaveLatest.single_producer setup scripts = true ->
+    let '(tr, e, fin) := run_case v0 setup scripts sched in latest_ok v0 setup scripts tr e fin = true.
+Proof. exact IleaveLatest.il_latest_single_producer. Qed.
+
+(* ... and when all threads have returned it is the last value passed to next, in script order *)
+Theorem C12_stored_value_with_one_producer :
+  forall v0 setup scripts sched,
+    IleaveInv.setup_completes v0 setup = true -> IleaveLatest.single_producer setup scripts = true ->
+    let '(tr, e, fin) := run_case v0 setup scripts sched in
+    e = EFinished -> fin = setup_value v0 (setup ++ concat scripts).
+Proof. exact IleaveLatest.il_final_value_single_producer. Qed.
+
+(* a subscriber that joins is handed the latest value and then every later item when it joins from the producer's own thread
+   (other threads only subscribe, unsubscribe, peek) *)
+Theorem C12_joiner_on_the_producer_thread :
+  forall v0 setup scripts sched,
+    IleaveInv.names_ok setup scripts = true -> IleaveInv.setup_completes v0 setup = true ->
+    IleaveLatest.joiners_with_producer scripts = true ->
+    let '(tr, e, fin) := run_case v0 setup scripts sched in joiner_ok v0 setup scripts tr e = true.
+Proof. exact IleaveLatest.il_joiner_with_producer. Qed.
+
+Check C12_latest_with_one_producer : forall v0 setup scripts sched,
+    IleaveInv.names_ok setup scripts = true -> IleaveInv.setup_completes v0 setup = true ->
+    IleaveLatest.single_producer setup scripts = true ->
+    let '(tr, e, fin) := run_case v0 setup scripts sched in latest_ok v0 setup scripts tr e fin = true.
+Check C12_stored_value_with_one_producer : forall v0 setup scripts sched,
+    IleaveInv.setup_completes v0 setup = true -> IleaveLatest.single_producer setup scripts = true ->
+    let '(tr, e, fin) := run_case v0 setup scripts sched in
+    e = EFinished -> fin = setup_value v0 (setup ++ concat scripts).
+Check C12_joiner_on_the_producer_thread : forall v0 setup scripts sched,
+    IleaveInv.names_ok setup scripts = true -> IleaveInv.setup_completes v0 setup = true ->
+    IleaveLatest.joiners_with_producer scripts = true ->
+    let '(tr, e, fin) := run_case v0 setup scripts sched in joiner_ok v0 setup scripts tr e = true.
+Print Assumptions C12_latest_with_one_producer.
+Print Assumptions C12_stored_value_with_one_producer.
+Print Assumptions C12_joiner_on_the_producer_thread.
 
 (* a schedule without that overlap satisfies both clauses: the predicates are not vacuous *)
 Example C12_concurrent_serial_ok :
